@@ -45,6 +45,7 @@ type QCfg struct {
 	YieldPrefixes   []string `json:"yield_prefixes,omitempty"`
 	ShortReads      int      `json:"short_reads"` // 0 off, else 1/n chance to cut a read
 	TLS             bool     `json:"tls"`
+	Topology        bool     `json:"topology_aware,omitempty"` // --enable-experiment=topology-aware-consumption with region/zone set
 	Steer           []SteerRule `json:"steer,omitempty"`
 	NoDrain         bool     `json:"no_drain,omitempty"`
 	Restarts        int      `json:"restarts,omitempty"`
@@ -273,6 +274,10 @@ func (w *qWorld) newOptions() *nsqd.Options {
 	o.OutputBufferTimeout = ms(c.OBTMs)
 	o.ClientTimeout = ms(c.ClientTimeoutMs)
 	o.MaxHeartbeatInterval = 60 * time.Second
+	if c.Topology {
+		o.TopologyRegion, o.TopologyZone = "r1", "z1"
+		o.Experiments = []string{"topology-aware-consumption"}
+	}
 	if c.TLS {
 		o.TLSCert = "/repo/nsqd/test/certs/server.pem"
 		o.TLSKey = "/repo/nsqd/test/certs/server.key"
@@ -710,6 +715,17 @@ func (w *qWorld) opSub(op Op) {
 	w.cons = append(w.cons, co)
 	flags := op.D
 	opts := map[string]interface{}{"client_id": cl.Name, "hostname": "sim", "feature_negotiation": true, "user_agent": "verif"}
+	if w.cfg.Topology {
+		// same zone, same region other zone, other region, or no topology at all
+		switch (op.D >> 21) & 3 {
+		case 0:
+			opts["topology_region"], opts["topology_zone"] = "r1", "z1"
+		case 1:
+			opts["topology_region"], opts["topology_zone"] = "r1", "z2"
+		case 2:
+			opts["topology_region"], opts["topology_zone"] = "r2", "z9"
+		}
+	}
 	switch flags & 3 {
 	case 1:
 		opts["output_buffer_size"] = -1
